@@ -255,6 +255,17 @@ func (v *Validators) SetNewValidators(candidates []*candidates.Candidate) {
 		})
 	}
 
+	// a validator that leaves the set takes no accumulated reward with it: what it has accrued since the last payout
+	// goes to total slashed like every other undistributed remainder, instead of disappearing from the books
+	for _, oldVal := range old {
+		if _, ok := oldValidatorsForRemove[oldVal.PubKey]; ok {
+			if accum := oldVal.GetAccumReward(); accum.Sign() == 1 {
+				v.bus.App().AddTotalSlashed(accum)
+				oldVal.SetAccumReward(big.NewInt(0))
+			}
+		}
+	}
+
 	v.lock.Lock()
 	v.removed = oldValidatorsForRemove
 	v.lock.Unlock()
